@@ -1,7 +1,7 @@
 (* C15 — No input can make the node use resources it did not pay for: interpreter memory
    is metered.  Property theorems only: each is closed by [exact <lemma>] (or by
    vm_compute on generated data) and followed by [Print Assumptions].
-   Model: Model/C15.v   Lemmas: Proofs/C15.v   Generated data: Generated/C15JumpTable.v *)
+   Model: Model/C15.v   Lemmas: Proofs/C15.v   Generated data: Generated/C15JumpTable.v, Generated/C15Decoders.v *)
 From Coq Require Import List NArith Bool String.
 From GQ Require Import Lib.C15_Row Lib.C15_Wire Lib.C15_Window Generated.C15JumpTable Model.C15 Proofs.C15 Proofs.C15_Wire Proofs.C15_Window.
 Import ListNotations.
@@ -302,4 +302,46 @@ Proof. split; vm_compute; reflexivity. Qed.
 (* a window inside the return data is granted, one byte beyond it is refused *)
 Example rdc_window_nonvacuous :
   rdc_window 4 28 32 = Some (4, 32) /\ rdc_window 4 29 32 = None /\ rdc_window (W64 - 1) 2 32 = None.
+Proof. repeat split; vm_compute; reflexivity. Qed.
+
+(* ---------- (A) the decoder inventory (extension round) ----------
+   Generated/C15Decoders.v `decoders` is read from the source tree on every run: every method ProtoDecode /
+   UnmarshalJSON / UnmarshalText / DecodeRLP / UnmarshalBinary / Deserialize on a named type.  Each run of the
+   harness reports, as the correspondence case mkInv, which of them its sweep exercised (an entry counts only when
+   one of its valid fixtures decoded to the end in that run); case_ok = inv_ok. *)
+From GQ Require Import Generated.C15Decoders Proofs.C15_Inv.
+
+(* what a passing inventory case means, for ALL reported lists: every decoder defined in the source was exercised
+   or is an exemption of the model, and the harness exempts exactly the model's exemptions *)
+Theorem decoder_inventory_check_sound : forall swept exempt,
+  inv_ok swept exempt = true ->
+  (forall d, In d decoders -> In d swept \/ In d decoders_exempt) /\
+  (forall d, In d exempt <-> In d decoders_exempt).
+Proof. exact inv_ok_sound. Qed.
+Print Assumptions decoder_inventory_check_sound.
+
+(* and one decoder of the source that is neither swept nor exempted fails the case, whatever else is reported *)
+Theorem decoder_inventory_check_complete : forall swept exempt d,
+  In d decoders -> ~ In d swept -> ~ In d decoders_exempt -> inv_ok swept exempt = false.
+Proof. exact inv_ok_complete. Qed.
+Print Assumptions decoder_inventory_check_complete.
+
+(* OBLIGATION on generated data: every exemption names a decoder that exists in the source (a renamed or removed
+   decoder must be reviewed, an exemption cannot silently cover a future decoder of another name) *)
+Theorem decoder_exemptions_are_real : str_incl decoders_exempt decoders = true.
+Proof. exact exemptions_are_real. Qed.
+Print Assumptions decoder_exemptions_are_real.
+
+(* OBLIGATION on generated data: outside the exemptions, decoders are defined only in the packages the sweep links
+   and feeds (common, common/hexutil, common/math, core/types, quai/filters, rpc): a decoder added to any other
+   package breaks this without touching any .v *)
+Theorem decoders_in_scope_or_exempt :
+  forallb (fun d => in_scope d || str_mem d decoders_exempt) decoders = true.
+Proof. exact Proofs.C15_Inv.decoders_in_scope_or_exempt. Qed.
+Print Assumptions decoders_in_scope_or_exempt.
+
+(* the check distinguishes: everything swept passes, nothing swept fails, one decoder short fails *)
+Example decoder_inventory_nonvacuous :
+  inv_ok decoders decoders_exempt = true /\ inv_ok [] decoders_exempt = false /\
+  inv_ok (tl decoders) decoders_exempt = false /\ inv_ok decoders [] = false.
 Proof. repeat split; vm_compute; reflexivity. Qed.
